@@ -142,7 +142,8 @@ fn global_init() {
                     p
                 },
                 |_| {},
-                |_| {},
+                // a task dropped by the executor without being polled (cancelled) is activity too
+                |_| POLLS.with(|c| c.set(c.get() + 1)),
             );
         }
         let default_hook = std::panic::take_hook();
@@ -236,7 +237,20 @@ impl<S: Scenario> Driver for Drv<S> {
             if let PollResult::Ready = rt.poll() {
                 return Ok(());
             }
-            let ran = POLLS.with(|p| p.get()) != before;
+            let mut ran = POLLS.with(|p| p.get()) != before;
+            if !ran && !finishing {
+                // confirm quiescence: a runnable that neither polls nor drops a wrapped future
+                // (there should be none) must not be mistaken for an empty run queue
+                for _ in 0..2 {
+                    if let PollResult::Ready = rt.poll() {
+                        return Ok(());
+                    }
+                    if POLLS.with(|p| p.get()) != before {
+                        ran = true;
+                        break;
+                    }
+                }
+            }
             if finishing {
                 if ran {
                     idle_spins = 0;
@@ -378,7 +392,60 @@ impl<S: Scenario> Driver for Drv<S> {
     }
 }
 
-/// Run one execution of scenario `S` under `choices` on a fresh OS thread.
+/// Body of one execution on the current thread. Returns true if it unwound (panicked).
+fn exec_here<S: Scenario>(cfg: &S::Cfg, choices: &[u16], max_polls: u64, rec: &Arc<Mutex<ExecRecord>>) -> bool {
+    IN_EXEC.with(|c| c.set(true));
+    REC.with(|r| *r.borrow_mut() = Some(rec.clone()));
+    POLLS.with(|p| p.set(0));
+    STEP.with(|p| p.set(0));
+    let cfg2 = cfg.clone();
+    let choices = choices.to_vec();
+    let rec2 = rec.clone();
+    let r = std::panic::catch_unwind(std::panic::AssertUnwindSafe(move || {
+        let rt = Runtime::builder().event_interval(1).build(Box::new(NoNotify));
+        let world: Rc<RefCell<Option<S>>> = Rc::new(RefCell::new(None));
+        let root = Rc::new(RootState { done: Cell::new(false), waker: RefCell::new(None) });
+        let drv = Drv::<S> { world: world.clone(), root: root.clone(), choices, max_polls, rec: rec2 };
+        let w2 = world.clone();
+        let r2 = root.clone();
+        let fut = async move {
+            bump_root_poll();
+            let s = S::build(&cfg2).await;
+            *w2.borrow_mut() = Some(s);
+            RootWait(r2).await;
+            // drop the world inside the runtime so destructors can spawn/encode
+            let s = w2.borrow_mut().take();
+            drop(s);
+        };
+        rt.block_on(fut, &drv);
+        drop(drv);
+        drop(rt);
+    }));
+    // return the thread to a pristine state (timers, io manager, virtual clock)
+    let cleanup = std::panic::catch_unwind(|| {
+        unsafe { ntex_rt::remove_all_items() };
+        ntex_util::time::vclock::reset();
+    });
+    REC.with(|r| *r.borrow_mut() = None);
+    IN_EXEC.with(|c| c.set(false));
+    r.is_err() || cleanup.is_err()
+}
+
+fn seal(rec: Arc<Mutex<ExecRecord>>, panicked: bool) -> ExecRecord {
+    let mut out = rec.lock().map(|g| g.clone()).unwrap_or_else(|p| p.into_inner().clone());
+    if panicked {
+        let p = out.panic.clone().unwrap_or_else(|| "panic (location unknown)".into());
+        // only a panic that is not already explained by a verdict becomes the verdict
+        if !matches!(out.verdict, Some(Verdict::Violation(_))) {
+            out.verdict = Some(Verdict::Violation(Violation::new("panic", panic_site(&p), format!("panicked at {p}"))));
+        }
+    } else if out.verdict.is_none() {
+        out.verdict = Some(Verdict::Machinery("execution ended without a verdict".into()));
+    }
+    out
+}
+
+/// Run one execution of scenario `S` under `choices` on a fresh OS thread (reference isolation).
 pub fn run_one<S: Scenario>(cfg: &S::Cfg, choices: &[u16], max_polls: u64) -> ExecRecord {
     global_init();
     let rec = Arc::new(Mutex::new(ExecRecord::default()));
@@ -387,53 +454,43 @@ pub fn run_one<S: Scenario>(cfg: &S::Cfg, choices: &[u16], max_polls: u64) -> Ex
     let choices = choices.to_vec();
     let h = std::thread::Builder::new()
         .stack_size(4 << 20)
-        .spawn(move || {
-            IN_EXEC.with(|c| c.set(true));
-            REC.with(|r| *r.borrow_mut() = Some(rec2.clone()));
-            POLLS.with(|p| p.set(0));
-            STEP.with(|p| p.set(0));
-            let rt = Runtime::builder().event_interval(1).build(Box::new(NoNotify));
-            let world: Rc<RefCell<Option<S>>> = Rc::new(RefCell::new(None));
-            let root = Rc::new(RootState { done: Cell::new(false), waker: RefCell::new(None) });
-            let drv = Drv::<S> {
-                world: world.clone(),
-                root: root.clone(),
-                choices,
-                max_polls,
-                rec: rec2.clone(),
-            };
-            let w2 = world.clone();
-            let r2 = root.clone();
-            let fut = async move {
-                bump_root_poll();
-                let s = S::build(&cfg).await;
-                *w2.borrow_mut() = Some(s);
-                RootWait(r2).await;
-                // drop the world inside the runtime so destructors can spawn/encode
-                let s = w2.borrow_mut().take();
-                drop(s);
-            };
-            rt.block_on(fut, &drv);
-            drop(rt);
-            REC.with(|r| *r.borrow_mut() = None);
-        })
+        .spawn(move || exec_here::<S>(&cfg, &choices, max_polls, &rec2))
         .expect("spawn execution thread");
-    let joined = h.join();
-    let mut out = rec.lock().map(|g| g.clone()).unwrap_or_else(|p| p.into_inner().clone());
-    if joined.is_err() {
-        let p = out.panic.clone().unwrap_or_else(|| "panic (location unknown)".into());
-        // only a panic that is not already explained by a verdict becomes the verdict
-        if !matches!(out.verdict, Some(Verdict::Violation(_))) {
-            out.verdict = Some(Verdict::Violation(Violation::new(
-                "panic",
-                panic_site(&p),
-                format!("panicked at {p}"),
-            )));
-        }
-    } else if out.verdict.is_none() {
-        out.verdict = Some(Verdict::Machinery("execution ended without a verdict".into()));
+    let panicked = h.join().unwrap_or(true);
+    seal(rec, panicked)
+}
+
+/// Run one execution on the *current* (reused) thread. `.1` = the thread must be retired.
+pub fn run_reused<S: Scenario>(cfg: &S::Cfg, choices: &[u16], max_polls: u64) -> (ExecRecord, bool) {
+    global_init();
+    let rec = Arc::new(Mutex::new(ExecRecord::default()));
+    let panicked = exec_here::<S>(cfg, choices, max_polls, &rec);
+    (seal(rec, panicked), panicked)
+}
+
+/// Is thread reuse (with the cleanup in `exec_here`) observationally identical to a fresh thread
+/// for this configuration? Compares full observation logs of a few schedules run both ways.
+pub fn reuse_is_deterministic<S: Scenario>(cfg: &S::Cfg, max_polls: u64) -> bool {
+    let cfg = cfg.clone();
+    let fresh_root = run_one::<S>(&cfg, &[], max_polls);
+    // a second schedule: deviate at the last choice point that has an alternative
+    let mut alt: Vec<u16> = Vec::new();
+    if let Some(i) = fresh_root.points.iter().rposition(|p| p.n_alts > 1) {
+        alt = fresh_root.choices[..i].to_vec();
+        alt.push(1);
     }
-    out
+    let fresh_alt = run_one::<S>(&cfg, &alt, max_polls);
+    let h = std::thread::Builder::new().stack_size(4 << 20).spawn(move || {
+        let mut ok = true;
+        for _ in 0..2 {
+            let (a, _) = run_reused::<S>(&cfg, &alt, max_polls);
+            let (r, _) = run_reused::<S>(&cfg, &[], max_polls);
+            ok &= r.log == fresh_root.log && r.points == fresh_root.points && r.polls == fresh_root.polls;
+            ok &= a.log == fresh_alt.log && a.points == fresh_alt.points && a.polls == fresh_alt.polls;
+        }
+        ok
+    });
+    h.map(|h| h.join().unwrap_or(false)).unwrap_or(false)
 }
 
 /// Reduce "file:line: msg" to "file: msg" (line numbers drift under harmless edits).
@@ -457,6 +514,7 @@ pub struct ExploreCfg {
     pub time_cap: Duration,
     pub max_execs: u64,
     pub stop_after_violations: usize,
+    pub reuse_threads: bool,
 }
 
 impl Default for ExploreCfg {
@@ -468,6 +526,7 @@ impl Default for ExploreCfg {
             time_cap: Duration::from_secs(600),
             max_execs: u64::MAX,
             stop_after_violations: 5,
+            reuse_threads: true,
         }
     }
 }
@@ -495,6 +554,7 @@ pub struct Stats {
     pub machinery_errors: Vec<String>,
     pub cap_hit: Option<String>,
     pub samples: Vec<Vec<String>>,
+    pub isolation: Option<String>,
 }
 
 impl Stats {
@@ -549,125 +609,150 @@ pub fn explore<S: Scenario>(cfg: &S::Cfg, ecfg: &ExploreCfg, deadline: Instant) 
         execs: AtomicU64::new(0),
     });
     let total = Arc::new(Mutex::new(Stats::default()));
+    let reuse = ecfg.reuse_threads && reuse_is_deterministic::<S>(cfg, ecfg.max_polls);
     std::thread::scope(|sc| {
         for _ in 0..ecfg.threads.max(1) {
             let shared = shared.clone();
             let total = total.clone();
             sc.spawn(move || {
-                let mut local = Stats::default();
+                // supervisor: a worker thread is retired after an execution panicked in it
                 loop {
-                    let prefix = {
-                        let mut g = shared.stack.lock().unwrap();
-                        loop {
-                            if shared.stop.load(Ordering::Relaxed) {
-                                break None;
-                            }
-                            if let Some(p) = g.0.pop() {
-                                g.1 += 1;
-                                break Some(p);
-                            }
-                            if g.1 == 0 {
-                                break None;
-                            }
-                            g = shared.cv.wait(g).unwrap();
-                        }
-                    };
-                    let Some(prefix) = prefix else {
-                        shared.cv.notify_all();
-                        break;
-                    };
-                    let rec = run_one::<S>(cfg, &prefix, ecfg.max_polls);
-                    let n = shared.execs.fetch_add(1, Ordering::Relaxed) + 1;
-                    local.execs += 1;
-                    local.points += rec.points.len() as u64;
-                    local.transitions += rec.polls + rec.events;
-                    local.max_depth = local.max_depth.max(rec.points.len());
-                    let mut children: Vec<Vec<u16>> = Vec::new();
-                    match &rec.verdict {
-                        Some(Verdict::Ok(o)) => {
-                            let h = hash_str(&o.obs);
-                            local.outcomes.insert(h);
-                            if o.nontrivial {
-                                local.nontrivial_execs += 1;
-                                local.nontrivial_outcomes.insert(h);
-                            }
-                            if local.samples.len() < 2 && (o.nontrivial || local.execs < 3) {
-                                local.samples.push(rec.labels.clone());
-                            }
-                        }
-                        Some(Verdict::Violation(v)) => {
-                            let key = format!("{}|{}", v.clause, v.witness);
-                            let cnt = local.violation_classes.entry(key).or_default();
-                            *cnt += 1;
-                            if *cnt <= 1 && local.violations.len() < 50 {
-                                local.violations.push(FoundViolation {
-                                    cfg: format!("{cfg:?}"),
-                                    choices: rec.choices.clone(),
-                                    labels: rec.labels.clone(),
-                                    violation: v.clone(),
-                                    log: rec.log.clone(),
-                                });
-                            }
-                        }
-                        Some(Verdict::Machinery(m)) => {
-                            if local.machinery_errors.len() < 10 {
-                                local.machinery_errors.push(format!(
-                                    "{m} (cfg {cfg:?} choices {:?})",
-                                    rec.choices
-                                ));
-                            }
-                        }
-                        None => {}
+                    let shared = shared.clone();
+                    let total = total.clone();
+                    let cfg = cfg.clone();
+                    let ecfg = ecfg.clone();
+                    let h = std::thread::Builder::new().stack_size(4 << 20).spawn(move || {
+                        worker::<S>(&cfg, &ecfg, deadline, &shared, &total, reuse)
+                    });
+                    match h.map(|h| h.join()) {
+                        Ok(Ok(true)) => continue, // retired, start a fresh worker
+                        _ => break,
                     }
-                    // replay determinism: the prefix must have been consumed as recorded
-                    if rec.choices.len() >= prefix.len() {
-                        debug_assert_eq!(&rec.choices[..prefix.len()], &prefix[..]);
-                    } else if matches!(rec.verdict, Some(Verdict::Ok(_))) {
-                        local.machinery_errors.push(format!(
-                            "replay divergence: prefix {:?} longer than execution {:?} (cfg {cfg:?})",
-                            prefix, rec.choices
-                        ));
-                    }
-                    // children: deviate at every point after the prefix
-                    let mut devs: u32 = 0;
-                    for (i, p) in rec.points.iter().enumerate() {
-                        let c = rec.choices[i];
-                        if i >= prefix.len() {
-                            for alt in 1..p.n_alts {
-                                let cost = devs + if p.running { 1 } else { 0 };
-                                if cost <= ecfg.max_dev {
-                                    let mut child = rec.choices[..i].to_vec();
-                                    child.push(alt);
-                                    children.push(child);
-                                }
-                            }
-                        }
-                        if p.running && c != 0 {
-                            devs += 1;
-                        }
-                    }
-                    let over = n >= ecfg.max_execs || Instant::now() >= deadline;
-                    {
-                        let mut g = shared.stack.lock().unwrap();
-                        g.1 -= 1;
-                        if over {
-                            if !children.is_empty() || !g.0.is_empty() {
-                                local.cap_hit = Some(format!(
-                                    "stopped after {n} executions (time/exec cap) with work pending"
-                                ));
-                            }
-                            shared.stop.store(true, Ordering::Relaxed);
-                        } else {
-                            // reverse so that simplest alternative is popped first
-                            children.reverse();
-                            g.0.extend(children);
-                        }
-                    }
-                    shared.cv.notify_all();
                 }
-                total.lock().unwrap().merge(local);
             });
         }
     });
+    total.lock().unwrap().isolation = Some(if reuse { "reused worker threads (self-check: identical to fresh threads)".into() } else { "fresh OS thread per execution".into() });
     Arc::try_unwrap(total).ok().unwrap().into_inner().unwrap()
+}
+
+/// Worker loop; returns true when the thread must be retired (an execution panicked in it).
+fn worker<S: Scenario>(cfg: &S::Cfg, ecfg: &ExploreCfg, deadline: Instant, shared: &Arc<Shared>, total: &Arc<Mutex<Stats>>, reuse: bool) -> bool {
+    let mut local = Stats::default();
+    let mut retire = false;
+    loop {
+        let prefix = {
+            let mut g = shared.stack.lock().unwrap();
+            loop {
+                if shared.stop.load(Ordering::Relaxed) {
+                    break None;
+                }
+                if let Some(p) = g.0.pop() {
+                    g.1 += 1;
+                    break Some(p);
+                }
+                if g.1 == 0 {
+                    break None;
+                }
+                g = shared.cv.wait(g).unwrap();
+            }
+        };
+        let Some(prefix) = prefix else {
+            shared.cv.notify_all();
+            break;
+        };
+        let rec = if reuse {
+            let (rec, dirty) = run_reused::<S>(cfg, &prefix, ecfg.max_polls);
+            retire = dirty;
+            rec
+        } else {
+            run_one::<S>(cfg, &prefix, ecfg.max_polls)
+        };
+        let n = shared.execs.fetch_add(1, Ordering::Relaxed) + 1;
+        local.execs += 1;
+        local.points += rec.points.len() as u64;
+        local.transitions += rec.polls + rec.events;
+        local.max_depth = local.max_depth.max(rec.points.len());
+        let mut children: Vec<Vec<u16>> = Vec::new();
+        let mut is_violation = false;
+        match &rec.verdict {
+            Some(Verdict::Ok(o)) => {
+                let h = hash_str(&o.obs);
+                local.outcomes.insert(h);
+                if o.nontrivial {
+                    local.nontrivial_execs += 1;
+                    local.nontrivial_outcomes.insert(h);
+                }
+                if local.samples.len() < 2 && (o.nontrivial || local.execs < 3) {
+                    local.samples.push(rec.labels.clone());
+                }
+            }
+            Some(Verdict::Violation(v)) => {
+                is_violation = true;
+                let key = format!("{}|{}", v.clause, v.witness);
+                let cnt = local.violation_classes.entry(key).or_default();
+                *cnt += 1;
+                if *cnt <= 1 && local.violations.len() < 50 {
+                    local.violations.push(FoundViolation {
+                        cfg: format!("{cfg:?}"),
+                        choices: rec.choices.clone(),
+                        labels: rec.labels.clone(),
+                        violation: v.clone(),
+                        log: rec.log.clone(),
+                    });
+                }
+            }
+            Some(Verdict::Machinery(m)) => {
+                if local.machinery_errors.len() < 10 {
+                    local.machinery_errors.push(format!("{m} (cfg {cfg:?} choices {:?})", rec.choices));
+                }
+            }
+            None => {}
+        }
+        if rec.choices.len() < prefix.len() && !is_violation {
+            local.machinery_errors.push(format!(
+                "replay divergence: prefix {:?} longer than execution {:?} (cfg {cfg:?})",
+                prefix, rec.choices
+            ));
+        }
+        // children: deviate at every point after the prefix
+        let mut devs: u32 = 0;
+        for (i, p) in rec.points.iter().enumerate() {
+            let c = rec.choices[i];
+            if i >= prefix.len() {
+                for alt in 1..p.n_alts {
+                    let cost = devs + if p.running { 1 } else { 0 };
+                    if cost <= ecfg.max_dev {
+                        let mut child = rec.choices[..i].to_vec();
+                        child.push(alt);
+                        children.push(child);
+                    }
+                }
+            }
+            if p.running && c != 0 {
+                devs += 1;
+            }
+        }
+        let over = n >= ecfg.max_execs || Instant::now() >= deadline;
+        {
+            let mut g = shared.stack.lock().unwrap();
+            g.1 -= 1;
+            if over {
+                if !children.is_empty() || !g.0.is_empty() {
+                    local.cap_hit = Some(format!("stopped after {n} executions (time/exec cap) with work pending"));
+                }
+                shared.stop.store(true, Ordering::Relaxed);
+            } else {
+                // reverse so that the simplest alternative is popped first
+                children.reverse();
+                g.0.extend(children);
+            }
+        }
+        shared.cv.notify_all();
+        if retire {
+            break;
+        }
+    }
+    total.lock().unwrap().merge(local);
+    retire
 }
